@@ -68,7 +68,11 @@ def run(ctx):
         agent = RA.Agent(db=[((1, 3, 6, 1, 2, 1, 1, 1, 0), ["str", "616263"])], v3=v3)
         seam = Seam(agent)
         ctx_name = bytes(rng.randrange(32, 127) for _ in range(rng.choice([0, 7, 40])))
-        client = Client("127.0.0.1", creds, sender=seam, context_name=ctx_name)
+        # a context engine other than the agent's own (a proxied device): keys, engine id, boots and
+        # time handed to the plug-in stay those of the DISCOVERED (authoritative) engine
+        ctx_engine = rng.choice([b"", b"", b"\x80\x00\x1f\x88\x09behind-proxy", bytes(rng.randrange(256) for _ in range(12))])
+        client = Client("127.0.0.1", creds, sender=seam, context_name=ctx_name, engine_id=ctx_engine)
+        res.count("context-engine:" + ("own" if not ctx_engine else "other"))
         rid = rng.randrange(1, 2**31)
         n0 = len(VS.CALLS)
         with O.with_clock([rid] * 8):
@@ -77,7 +81,7 @@ def run(ctx):
             except Exception as exc:  # noqa: BLE001
                 result = ["error", RA.canon_exc(exc)]
         calls = VS.CALLS[n0:]
-        case = {"op": name, "args": args if len(str(args)) < 500 else "<long>", "method": method, "engine_id": engine_id.hex(), "user": user, "ctx_name": ctx_name.hex()}
+        case = {"op": name, "args": args if len(str(args)) < 500 else "<long>", "method": method, "engine_id": engine_id.hex(), "user": user, "ctx_name": ctx_name.hex(), "ctx_engine": ctx_engine.hex()}
         res.count(f"op:{name}")
         res.count(f"method:{method}")
         entries = [e for e in agent.log if e.get("kind") != "discovery"]
@@ -104,7 +108,7 @@ def run(ctx):
         try:
             sc = B.dec_scoped_tlv(plain)
             p = sc["pdu"]
-            if (bytes(sc["context_engine_id"]), bytes(sc["context_name"]), p["type"], p["request_id"], p["a"], p["b"], [(list(o), v) for o, v in p["varbinds"]]) != (engine_id, ctx_name, kind, rid, a, b, [(o, v) for o, v in vbs]):
+            if (bytes(sc["context_engine_id"]), bytes(sc["context_name"]), p["type"], p["request_id"], p["a"], p["b"], [(list(o), v) for o, v in p["varbinds"]]) != (ctx_engine or engine_id, ctx_name, kind, rid, a, b, [(o, v) for o, v in vbs]):
                 problems.append("the plaintext handed to the plug-in is not the intended scoped PDU")
         except Exception:  # noqa: BLE001
             problems.append("the plaintext handed to the plug-in is not a scoped PDU")
@@ -136,7 +140,7 @@ def run(ctx):
         for p_ in problems[:1]:
             res.violate("wire", case, "C11 oracle", {"result": result}, p_, {"kind": "priv", "what": p_[:40]})
         req = {"op": "usm.outgoing", "creds": {"user": user.encode().hex(), "auth": authpw.hex(), "priv": privpw.hex()},
-               "disco": {"engine_id": engine_id.hex(), "boots": boots, "time": etime}, "ctx_engine": "", "ctx_name": ctx_name.hex(),
+               "disco": {"engine_id": engine_id.hex(), "boots": boots, "time": etime}, "ctx_engine": ctx_engine.hex(), "ctx_name": ctx_name.hex(),
                "req": {"kind": kind, "rid": rid, "a": a, "b": b, "vbs": vbs}, "cipher": cipher.hex(), "salt": salt.hex()}  # fmt: skip
         off = m["auth_params_offset"]
         reqs.append(req)
